@@ -12,7 +12,7 @@
 (* membership, the directory's availability and the clock.                                   *)
 EXTENDS Integers, Sequences, FiniteSets, TLC
 
-CONSTANTS Users, Configured, Period, MaxT, Steps, AsBuilt
+CONSTANTS Users, Configured, AutoAdmins, Period, MaxT, Steps, AsBuilt
 Has(f) == f \in AsBuilt
 
 VARIABLES member, dirUp, cache, now, hist, last, downSince
@@ -39,6 +39,14 @@ Check(u) ==
     /\ UNCHANGED <<member, dirUp, now, downSince>>
 SetMember(u, b) == /\ u \notin Configured /\ member[u] # b /\ member' = [member EXCEPT ![u] = b]
                    /\ last' = [op |-> "setmember", user |-> u, member |-> b] /\ UNCHANGED <<dirUp, cache, now, hist, downSince>>
+\* an automation administrator mints an automation certificate: its own right.  The handler first asks whether the
+\* caller is an administrator (administrators may mint too), which is an evaluation like any other - the verdict is not
+\* what decides here
+Mint(u) == /\ u \in AutoAdmins /\ last' = [op |-> "mint", user |-> u]
+           /\ cache' = IF Has("MintCachesAdmin") THEN [cache EXCEPT ![u] = [val |-> TRUE, ts |-> now, set |-> TRUE]]
+                       ELSE [cache EXCEPT ![u] = CacheAfter(u)]
+           /\ hist' = IF ~Fresh(u) /\ dirUp /\ u \notin Configured THEN [hist EXCEPT ![u] = [t |-> now, val |-> member[u], set |-> TRUE]] ELSE hist
+           /\ UNCHANGED <<member, dirUp, now, downSince>>
 DirDown == /\ dirUp /\ dirUp' = FALSE /\ downSince' = now /\ last' = [op |-> "dirdown"] /\ UNCHANGED <<member, cache, now, hist>>
 DirUp   == /\ ~dirUp /\ dirUp' = TRUE /\ last' = [op |-> "dirup"] /\ UNCHANGED <<member, cache, now, hist, downSince>>
 Tick(d) == /\ now + d <= MaxT /\ now' = now + d /\ last' = [op |-> "tick", d |-> d]
@@ -46,7 +54,7 @@ Tick(d) == /\ now + d <= MaxT /\ now' = now + d /\ last' = [op |-> "tick", d |->
 
 Init == /\ member \in [Users -> BOOLEAN] /\ (\A u \in Configured : ~member[u]) /\ dirUp = TRUE /\ cache = [u \in Users |-> NoEntry] /\ now = Period
         /\ hist = [u \in Users |-> [t |-> 0, val |-> FALSE, set |-> FALSE]] /\ last = [op |-> "init"] /\ downSince = 0
-Next == \/ \E u \in Users : Check(u) \/ \E b \in BOOLEAN : SetMember(u, b)
+Next == \/ \E u \in Users : Check(u) \/ Mint(u) \/ \E b \in BOOLEAN : SetMember(u, b)
         \/ DirDown \/ DirUp \/ \E d \in Steps : Tick(d)
 Spec == Init /\ [][Next]_vars
 
